@@ -168,6 +168,25 @@ pub fn run(run: &Run) {
             }
         }
     });
+    {
+        let mut all = mark_neighbour_strings(0);
+        all.extend(mark_neighbour_strings(1));
+        all.extend(mark_neighbour_strings(2));
+        battery(run, "mark_neighbours", &all, &|s, l| PROFS.iter().all(|p| match check(run, *p, s, l) {
+            Ok(()) => true,
+            Err(v) => {
+                run.violate(v);
+                false
+            }
+        }));
+    }
+    battery(run, "block_representatives", &block_representative_strings(), &|s, l| PROFS.iter().all(|p| match check(run, *p, s, l) {
+        Ok(()) => true,
+        Err(v) => {
+            run.violate(v);
+            false
+        }
+    }));
     composing_pairs(run, "all_composing_pairs", &|s, l| PROFS.iter().all(|p| match check(run, *p, s, l) {
         Ok(()) => true,
         Err(_) => {
